@@ -4,6 +4,7 @@ mod gen;
 mod kinds;
 mod mech;
 mod rval;
+mod progs;
 mod props;
 
 use engine::*;
@@ -28,6 +29,7 @@ macro_rules! dispatch {
       "C16" => $f::<props::c16::C16>($($arg),*),
       "C17" => $f::<props::c17::C17>($($arg),*),
       "C18" => $f::<props::c18::C18>($($arg),*),
+      "C19" => $f::<props::c19::C19>($($arg),*),
       other => { eprintln!("unknown property {}", other); std::process::exit(3) }
     }
   };
